@@ -226,6 +226,7 @@ def validate(run, case, model, lazy=True, cache=True, tables_from='model') -> Va
         v.uniform_certified = ' uniform' in r
         v.ibu = ' ibu' in r
         v.bound = ' bound' in r
+        v.pull = ' pull' in r
         if r.startswith('ok'):
             if v.convex and not v.certified:
                 v.disc.append(dict(kind='uncertified', at=-1, detail='the static tables of this convex scenario do not pass check_static: the premise static_ok of the scheduler theorems is not established'))
@@ -258,6 +259,10 @@ def validate(run, case, model, lazy=True, cache=True, tables_from='model') -> Va
             kind = 'tables_anc' if all(x.startswith('anc') for x in (ms ^ is_)) else 'tables'
             v.disc.append(dict(kind=kind, at=-1, detail='static tables differ (model-only / implementation-only entries): ' + ' | '.join(
                 ('M:' if x in ms else 'I:') + x for x in diff)))
+            if lazy and any(x.startswith('succ ') for x in (ms ^ is_)):
+                # the table the lazy-stepping guard reads (C10)
+                v.disc.append(dict(kind='tables_succ', at=-1, detail='successors tables differ (model-only / implementation-only entries): ' + ' | '.join(
+                    ('M:' if x in ms else 'I:') + x for x in sorted(ms ^ is_) if x.startswith('succ '))[:400]))
         ports = {s: {p: ATTR[p[1]] for p in sim.triggers} for s, sim in run.world.sims.items()}
     else:
         if run.build_error is not None or run.world is None:
